@@ -1,9 +1,12 @@
 #!/usr/bin/env python3
 """recheck_mutants.py [name ...]: run the property's check again against seeded changes already stored under
 /verif/seeded/<ID>-*/ (all of them without arguments) and refresh the "check" block of their meta.json.
-Environment: BUDGET (seconds, default 20)."""
+Environment: BUDGET (seconds, default 20); SEED (VERIF_SEED of the run; with a value other than 1 the verdict is recorded
+under check.other_seeds[SEED] and the main verdict is left alone: a change detected by one seed only is a lucky hit)."""
 import json, os, subprocess, sys, glob, re
 budget = os.environ.get('BUDGET', '20')
+seed = os.environ.get('SEED', '1')
+os.environ['VERIF_SEED'] = seed
 names = sys.argv[1:] or sorted(os.path.basename(d) for d in glob.glob('/verif/seeded/C??-*') if os.path.isdir(d))
 for name in names:
     dst = os.path.join('/verif/seeded', name)
@@ -17,9 +20,15 @@ for name in names:
     rc = re.search(r'exit=(\d+)', out)
     viol = re.findall(r'^fsim: ([\w-]+/[^:]+):', out, re.M)
     old = meta.get('check', {})
+    if seed != '1':
+        old.setdefault('other_seeds', {})[seed] = {'exit': int(rc.group(1)) if rc else None, 'detected': bool(rc and rc.group(1) == '1'), 'budget_s': int(budget)}
+        meta['check'] = old
+        json.dump(meta, open(mp, 'w'), indent=1)
+        print(name, 'seed=%s' % seed, 'exit=%s' % (rc.group(1) if rc else None), sorted(set(viol))[:3], '' if old.get('detected') == old['other_seeds'][seed]['detected'] else '  <-- differs from seed 1 (%s)' % old.get('detected'), flush=True)
+        continue
     chk = {'cmd': 'tools/scripts/try_mutant.sh patch.diff %s %s (VERIF_REPO=<scratch worktree> ./bin/fsim check %s)' % (cid, budget, cid),
            'exit': int(rc.group(1)) if rc else None, 'violations': sorted(set(viol)), 'detected': bool(rc and rc.group(1) == '1')}
-    for k in ('by', 'note'):
+    for k in ('by', 'note', 'other_seeds'):
         if k in old:
             chk[k] = old[k]
     changed = '' if old.get('detected') == chk['detected'] else '  <-- was %s' % old.get('detected')
